@@ -17,7 +17,7 @@
 (***************************************************************************)
 EXTENDS Integers, Sequences, FiniteSets, TLC, Json
 
-CONSTANTS Procs,       \* subset of {"timer", "cad", "closelast", "writer", "open1", "open2"}
+CONSTANTS Procs,       \* subset of {"timer", "cad", "closelast", "writer", "open1", "open2", "viewbg"}
           StopFirst
 
 Locks == {"R", "M", "E", "F"}
@@ -45,6 +45,8 @@ Program(p) ==
            <<G("op.start"), A("F"), A("M"), X("usedb-or-closed"), Rl("M"), G("post.before"), A("M"), Rl("M"), Rl("F"), A("E"), Rl("E")>>
       [] p \in {"open1", "open2"} -> \* OpenBucket of a bucket that is on disk but not registered
            <<G("op.start"), A("R"), Rl("R"), G("open.cachemiss"), G("open.beforeregister"), A("R"), X("register"), Rl("R")>>
+      [] p = "viewbg" ->    \* the background index update of a view query with stale=updateAfter
+           <<G("view.updateafter"), A("M"), X("usedb-or-closed"), Rl("M")>>
       [] OTHER -> <<>>
 
 VARIABLES pc,        \* [Procs -> index of the next instruction]
